@@ -9,7 +9,7 @@ from ..util import Info
 
 ID = "C01"
 LEVEL = "exploration"
-BUDGET = {"quick": 16000, "thorough": 1200000}
+BUDGET = {"quick": 7000, "thorough": 1200000}
 RULE = (
     "case = (prune flag, history of set/delete/set-empty ops in method or dict syntax, "
     "directly or inside committed squash_changes batches; keys from structure-directed "
